@@ -2,6 +2,7 @@ package checks
 
 import (
 	"context"
+	"encoding/json"
 	"fmt"
 	gofs "io/fs"
 	"os"
@@ -480,5 +481,117 @@ func c09Check(env *h.Env, c *c09Case) error {
 }
 
 func TestC09(t *testing.T) {
-	h.Run(t, "C09", genC09, c09Check)
+	r := h.NewRunner("C09")
+	defer r.Finish(t)
+	h.RunWith(t, r, "", genC09, c09Check)
+	if t.Failed() {
+		return
+	}
+	t.Run("unpriv", func(t *testing.T) {
+		h.ScaleChecks(1, 40, func() { h.RunWith(t, r, "unpriv", genC09Unpriv, c09UnprivCheck) })
+	})
+}
+
+// ---------------------------------------------------------------------------
+// sub-run "unpriv": the walk runs as uid 1000 (chrooted sub-process) over a tree
+// it owns in which some files are not readable by it (mode 0000/0200) and carry
+// user.* xattrs: every entry is still reported, in order, with its lstat fields;
+// xattr values are compared for the entries the walker can read.
+
+type c09UnprivCase struct {
+	Tree *h.Tree `json:"tree"`
+}
+
+type c09JailResult struct {
+	Err   string  `json:"err"`
+	Stats []hStat `json:"stats"`
+}
+
+func jailWalk(raw json.RawMessage) (any, error) {
+	res := &c09JailResult{}
+	err := fsutil.Walk(context.Background(), "/src", nil, func(p string, fi os.FileInfo, err error) error {
+		if err != nil {
+			return err
+		}
+		st := fi.Sys().(*types.Stat)
+		res.Stats = append(res.Stats, hStat{Path: h.BStr(st.Path), Mode: st.Mode, Uid: st.Uid, Gid: st.Gid, Size: st.Size, Mtime: st.ModTime, Link: h.BStr(st.Linkname), Maj: st.Devmajor, Min: st.Devminor, Xattrs: st.Xattrs})
+		return nil
+	})
+	if err != nil {
+		res.Err = err.Error()
+	}
+	return res, nil
+}
+
+func genC09Unpriv(t *rapid.T) *c09UnprivCase {
+	c := &c09UnprivCase{Tree: h.GenTree(t, c01UnprivCfg, "t")}
+	unprivNormalize(c.Tree)
+	for i := range c.Tree.Nodes {
+		if n := &c.Tree.Nodes[i]; n.Kind == h.KFile && n.LinkTo == "" && rapid.IntRange(0, 2).Draw(t, fmt.Sprintf("unreadable%d", i)) == 0 {
+			n.Perm = rapid.SampledFrom([]uint32{0, 0o200, 0o100, 0o044}).Draw(t, fmt.Sprintf("perm%d", i))
+			if n.Xattrs == nil && rapid.Bool().Draw(t, fmt.Sprintf("addx%d", i)) {
+				n.Xattrs = map[string][]byte{"user.k": []byte("v")}
+			}
+		}
+	}
+	c.Tree.Normalize()
+	return c
+}
+
+func c09UnprivCheck(env *h.Env, c *c09UnprivCase) error {
+	jail := filepath.Join(env.Scratch, "jail")
+	src := filepath.Join(jail, "src")
+	if err := os.MkdirAll(src, 0o755); err != nil {
+		return h.Infra(err)
+	}
+	if err := h.Materialise(c.Tree, src); err != nil {
+		return h.Infra(err)
+	}
+	if err := os.Chown(src, 1000, 1000); err != nil {
+		return h.Infra(err)
+	}
+	os.Chmod(jail, 0o755)
+	os.Chmod(env.Scratch, 0o755)
+	snap, err := h.Snapshot(src)
+	if err != nil {
+		return h.Infra(err)
+	}
+	want := expectWalk(snap, func(string) bool { return true })
+	var res c09JailResult
+	if err := runJailed(jail, "walk", 1000, struct{}{}, &res); err != nil {
+		return h.Infra(err)
+	}
+	env.Class("unprivileged-walk")
+	unreadable := map[string]bool{}
+	for _, n := range c.Tree.Nodes {
+		if n.Kind == h.KFile && n.Perm&0o400 == 0 {
+			unreadable[n.Path] = true
+			if len(n.Xattrs) > 0 {
+				env.Class("unreadable-file-with-xattr")
+				env.NonTrivial()
+			}
+		}
+	}
+	if res.Err != "" {
+		return fmt.Errorf("walk as uid 1000 over a tree it owns failed: %s", res.Err)
+	}
+	var got []walked
+	for i := range res.Stats {
+		st := res.Stats[i].stat()
+		got = append(got, walked{st.Path, st})
+	}
+	// xattr values of entries the walker cannot read are out of its reach
+	for i := range want {
+		if unreadable[want[i].Path] || (want[i].Stat.Linkname != "" && unreadable[want[i].Stat.Linkname]) {
+			st := want[i].Stat.Clone()
+			st.Xattrs = nil
+			want[i].Stat = st
+		}
+	}
+	for i := range got {
+		if unreadable[got[i].Path] || (got[i].Stat.Linkname != "" && unreadable[got[i].Stat.Linkname]) {
+			got[i].Stat.Xattrs = nil
+		}
+	}
+	return cmpWalk("Walk as uid 1000", got, want)
 }
